@@ -744,18 +744,30 @@ static carquet_status_t load_dictionary_page_mmap(
  * ============================================================================
  */
 
-static carquet_status_t load_dictionary_page_fread(
-    carquet_column_reader_t* reader,
-    int64_t dict_offset,
+/**
+ * Read one stored page (header + body as stored) at the given file offset.
+ *
+ * All column readers of a file share one FILE*, and the batch reader loads
+ * pages of different columns from several OpenMP threads. The stream position
+ * is shared state, so the whole seek/read/seek/read sequence is one critical
+ * section: interleaved with another thread's sequence, either would read
+ * bytes from the wrong offset.
+ *
+ * On success *compressed_out is a malloc'd buffer of
+ * header->compressed_page_size bytes that the caller must free.
+ */
+static carquet_status_t read_stored_page_unlocked(
+    FILE* file,
+    int64_t offset,
+    parquet_page_header_t* page_header,
+    size_t* header_size,
+    uint8_t** compressed_out,
     carquet_error_t* error) {
 
-    carquet_reader_t* file_reader = reader->file_reader;
-    FILE* file = file_reader->file;
-    const parquet_column_metadata_t* col_meta = reader->col_meta;
+    *compressed_out = NULL;
 
-    /* Seek to dictionary page */
-    if (fseek(file, dict_offset, SEEK_SET) != 0) {
-        CARQUET_SET_ERROR(error, CARQUET_ERROR_FILE_SEEK, "Failed to seek to dictionary");
+    if (fseek(file, offset, SEEK_SET) != 0) {
+        CARQUET_SET_ERROR(error, CARQUET_ERROR_FILE_SEEK, "Failed to seek to page");
         return CARQUET_ERROR_FILE_SEEK;
     }
 
@@ -763,47 +775,80 @@ static carquet_status_t load_dictionary_page_fread(
     uint8_t header_buf[256];
     size_t header_read = fread(header_buf, 1, sizeof(header_buf), file);
     if (header_read < 8) {
-        CARQUET_SET_ERROR(error, CARQUET_ERROR_FILE_READ, "Failed to read dictionary header");
+        CARQUET_SET_ERROR(error, CARQUET_ERROR_FILE_READ, "Failed to read page header");
         return CARQUET_ERROR_FILE_READ;
     }
 
-    parquet_page_header_t page_header;
-    size_t header_size;
     carquet_status_t status = parquet_parse_page_header(
-        header_buf, header_read, &page_header, &header_size, error);
+        header_buf, header_read, page_header, header_size, error);
     if (status != CARQUET_OK) {
         return status;
     }
 
-    if (page_header.type != CARQUET_PAGE_DICTIONARY) {
-        CARQUET_SET_ERROR(error, CARQUET_ERROR_INVALID_PAGE, "Expected dictionary page");
-        return CARQUET_ERROR_INVALID_PAGE;
-    }
-
-    if (page_header.compressed_page_size < 0 || page_header.uncompressed_page_size < 0) {
-        CARQUET_SET_ERROR(error, CARQUET_ERROR_INVALID_PAGE, "Negative dictionary page size");
+    if (page_header->compressed_page_size < 0 || page_header->uncompressed_page_size < 0) {
+        CARQUET_SET_ERROR(error, CARQUET_ERROR_INVALID_PAGE, "Negative page size");
         return CARQUET_ERROR_INVALID_PAGE;
     }
 
     /* Seek past header and read page data */
-    if (fseek(file, dict_offset + (long)header_size, SEEK_SET) != 0) {
-        CARQUET_SET_ERROR(error, CARQUET_ERROR_FILE_SEEK, "Failed to seek past dict header");
+    if (fseek(file, offset + (long)*header_size, SEEK_SET) != 0) {
+        CARQUET_SET_ERROR(error, CARQUET_ERROR_FILE_SEEK, "Failed to seek past page header");
         return CARQUET_ERROR_FILE_SEEK;
     }
 
     /* Allocate and read compressed data */
-    uint8_t* compressed = malloc(page_header.compressed_page_size);
+    uint8_t* compressed = malloc(page_header->compressed_page_size);
     if (!compressed) {
         CARQUET_SET_ERROR(error, CARQUET_ERROR_OUT_OF_MEMORY, "Failed to allocate compressed buffer");
         return CARQUET_ERROR_OUT_OF_MEMORY;
     }
 
-    if (fread(compressed, 1, page_header.compressed_page_size, file) !=
-        (size_t)page_header.compressed_page_size) {
+    if (fread(compressed, 1, page_header->compressed_page_size, file) !=
+        (size_t)page_header->compressed_page_size) {
         free(compressed);
-        CARQUET_SET_ERROR(error, CARQUET_ERROR_FILE_READ, "Failed to read dictionary data");
+        CARQUET_SET_ERROR(error, CARQUET_ERROR_FILE_READ, "Failed to read page data");
         return CARQUET_ERROR_FILE_READ;
     }
+
+    *compressed_out = compressed;
+    return CARQUET_OK;
+}
+
+static carquet_status_t read_stored_page(
+    FILE* file,
+    int64_t offset,
+    parquet_page_header_t* page_header,
+    size_t* header_size,
+    uint8_t** compressed_out,
+    carquet_error_t* error) {
+
+    carquet_status_t status;
+#ifdef _OPENMP
+    #pragma omp critical(carquet_shared_file_position)
+#endif
+    {
+        status = read_stored_page_unlocked(file, offset, page_header, header_size,
+                                           compressed_out, error);
+    }
+    return status;
+}
+
+/**
+ * Verify, decompress and install a dictionary page whose stored bytes have
+ * already been read. Takes ownership of compressed.
+ */
+static carquet_status_t finish_dictionary_page_fread(
+    carquet_column_reader_t* reader,
+    int64_t dict_offset,
+    const parquet_page_header_t* header,
+    size_t header_size,
+    uint8_t* compressed,
+    carquet_error_t* error) {
+
+    carquet_reader_t* file_reader = reader->file_reader;
+    const parquet_column_metadata_t* col_meta = reader->col_meta;
+    const parquet_page_header_t page_header = *header;
+    carquet_status_t status;
 
     /* Verify CRC32 if present */
     if (page_header.has_crc && file_reader->options.verify_checksums) {
@@ -837,6 +882,7 @@ static carquet_status_t load_dictionary_page_fread(
             compressed, page_header.compressed_page_size,
             page_data, page_header.uncompressed_page_size, &page_size);
         free(compressed);
+        compressed = NULL;
 
         if (status != CARQUET_OK) {
             free(page_data);
@@ -867,6 +913,32 @@ static carquet_status_t load_dictionary_page_fread(
     }
 
     return status;
+}
+
+static carquet_status_t load_dictionary_page_fread(
+    carquet_column_reader_t* reader,
+    int64_t dict_offset,
+    carquet_error_t* error) {
+
+    parquet_page_header_t page_header;
+    size_t header_size;
+    uint8_t* compressed = NULL;
+
+    carquet_status_t status = read_stored_page(
+        reader->file_reader->file, dict_offset,
+        &page_header, &header_size, &compressed, error);
+    if (status != CARQUET_OK) {
+        return status;
+    }
+
+    if (page_header.type != CARQUET_PAGE_DICTIONARY) {
+        free(compressed);
+        CARQUET_SET_ERROR(error, CARQUET_ERROR_INVALID_PAGE, "Expected dictionary page");
+        return CARQUET_ERROR_INVALID_PAGE;
+    }
+
+    return finish_dictionary_page_fread(reader, dict_offset, &page_header,
+                                        header_size, compressed, error);
 }
 
 /* ============================================================================
@@ -1157,25 +1229,15 @@ static carquet_status_t load_next_page_fread(
         }
     }
 
-    /* Seek to data page */
+    /* Read the stored page (header + body) in one critical section: the
+     * stream position is shared by all column readers of this file. */
     int64_t data_offset = reader->data_start_offset;
-    if (fseek(file, data_offset + reader->current_page, SEEK_SET) != 0) {
-        CARQUET_SET_ERROR(error, CARQUET_ERROR_FILE_SEEK, "Failed to seek to data page");
-        return CARQUET_ERROR_FILE_SEEK;
-    }
-
-    /* Read page header */
-    uint8_t header_buf[256];
-    size_t header_read = fread(header_buf, 1, sizeof(header_buf), file);
-    if (header_read < 8) {
-        CARQUET_SET_ERROR(error, CARQUET_ERROR_FILE_READ, "Failed to read page header");
-        return CARQUET_ERROR_FILE_READ;
-    }
-
     parquet_page_header_t page_header;
     size_t header_size;
-    carquet_status_t status = parquet_parse_page_header(
-        header_buf, header_read, &page_header, &header_size, error);
+    uint8_t* compressed = NULL;
+    carquet_status_t status = read_stored_page(
+        file, data_offset + reader->current_page,
+        &page_header, &header_size, &compressed, error);
     if (status != CARQUET_OK) {
         return status;
     }
@@ -1185,22 +1247,15 @@ static carquet_status_t load_next_page_fread(
      * the dictionary page. */
     if (page_header.type == CARQUET_PAGE_DICTIONARY && !reader->has_dictionary &&
         !col_meta->has_dictionary_page_offset && reader->current_page == 0) {
-        status = load_dictionary_page_fread(reader, data_offset, error);
+        status = finish_dictionary_page_fread(reader, data_offset, &page_header,
+                                              header_size, compressed, error);
+        compressed = NULL;  /* ownership passed on */
         if (status != CARQUET_OK) {
             return status;
         }
         data_offset = reader->data_start_offset;
-        if (fseek(file, data_offset, SEEK_SET) != 0) {
-            CARQUET_SET_ERROR(error, CARQUET_ERROR_FILE_SEEK, "Failed to seek to data page");
-            return CARQUET_ERROR_FILE_SEEK;
-        }
-        header_read = fread(header_buf, 1, sizeof(header_buf), file);
-        if (header_read < 8) {
-            CARQUET_SET_ERROR(error, CARQUET_ERROR_FILE_READ, "Failed to read page header");
-            return CARQUET_ERROR_FILE_READ;
-        }
-        status = parquet_parse_page_header(
-            header_buf, header_read, &page_header, &header_size, error);
+        status = read_stored_page(file, data_offset, &page_header, &header_size,
+                                  &compressed, error);
         if (status != CARQUET_OK) {
             return status;
         }
@@ -1209,37 +1264,14 @@ static carquet_status_t load_next_page_fread(
     if (page_header.type == CARQUET_PAGE_DATA_V2) {
         /* v2 pages keep their levels outside the compressed body and without
          * length prefixes; decoding them as v1 returns wrong values. */
+        free(compressed);
         CARQUET_SET_ERROR(error, CARQUET_ERROR_NOT_IMPLEMENTED, "Data page v2 is not supported");
         return CARQUET_ERROR_NOT_IMPLEMENTED;
     }
     if (page_header.type != CARQUET_PAGE_DATA) {
+        free(compressed);
         CARQUET_SET_ERROR(error, CARQUET_ERROR_INVALID_PAGE, "Expected data page");
         return CARQUET_ERROR_INVALID_PAGE;
-    }
-
-    if (page_header.compressed_page_size < 0 || page_header.uncompressed_page_size < 0) {
-        CARQUET_SET_ERROR(error, CARQUET_ERROR_INVALID_PAGE, "Negative page size");
-        return CARQUET_ERROR_INVALID_PAGE;
-    }
-
-    /* Seek past header and read page data */
-    if (fseek(file, data_offset + reader->current_page + (long)header_size, SEEK_SET) != 0) {
-        CARQUET_SET_ERROR(error, CARQUET_ERROR_FILE_SEEK, "Failed to seek past header");
-        return CARQUET_ERROR_FILE_SEEK;
-    }
-
-    /* Allocate and read compressed data */
-    uint8_t* compressed = malloc(page_header.compressed_page_size);
-    if (!compressed) {
-        CARQUET_SET_ERROR(error, CARQUET_ERROR_OUT_OF_MEMORY, "Failed to allocate compressed buffer");
-        return CARQUET_ERROR_OUT_OF_MEMORY;
-    }
-
-    if (fread(compressed, 1, page_header.compressed_page_size, file) !=
-        (size_t)page_header.compressed_page_size) {
-        free(compressed);
-        CARQUET_SET_ERROR(error, CARQUET_ERROR_FILE_READ, "Failed to read page data");
-        return CARQUET_ERROR_FILE_READ;
     }
 
     /* Verify CRC32 if present */
